@@ -174,6 +174,7 @@ def all_exprs(full):
   r1 = ('rec', (('a', x), ('b', y))); r2 = ('rec', (('a', x), ('r', ('rec', (('c', y), ('d', Bin('+', x, y)))))))
   out += [r1, r2, ('fld', r1, 'a'), ('fld', r1, 'b'), ('fld', ('fld', r2, 'r'), 'd'), ('fld', r2, 'r'), Bin('+', ('fld', r1, 'a'), ('fld', ('fld', r2, 'r'), 'c')),
           ('rec', (('l', l1), ('n', N(1)))), ('fld', ('rec', (('l', l1), ('n', N(1)))), 'l'), ('list', (r1,)), ('fld', ('elem', ('list', (r1, r1)), N(1)), 'b')]
+  out += [('un', '-', ('un', '-', y)), Bin('+', y, ('un', '-', N(-1))), ('un', '-', N(-2)), Bin('-', x, ('un', '-', y)), Bin('*', ('un', '-', ('un', '-', x)), N(-1)), ('un', '-', Bin('-', N(0), x))]
   out += [Call('Greatest', x, y), Call('Least', x, y), Call('Greatest', x, Bin('+', y, N(1))), ('isnull', x), ('un', '!', ('isnull', x))]
   return out
 
@@ -323,6 +324,7 @@ def gen_aggh(full):
         yield Case('AGGH', Program([R('T', x, y, Aggr(op, e), body=body, distinct=True)]), ['T'])
         yield Case('AGGH', Program([R('T', Bin('+', x, N(1)), Aggr(op, e), body=body, distinct=True)]), ['T'])
         yield Case('AGGH', Program([R('T', x, value=Aggr(op, e), body=body)]), ['T'])                      # T(x) Op= e
+        yield Case('AGGH', Program([R('T', x, named={'k': y, 's': Aggr(op, e)}, body=body, distinct=True)]), ['T'])   # positional and named grouping keys mixed
         yield Case('AGGH', Program([R('T', x, Aggr(op, e), Aggr('Max', y), body=body, distinct=True)]), ['T'])
         yield Case('AGGH', Program([R('T', x, named={'s': Aggr(op, e), 'm': Aggr('Min', Bin('*', y, N(2)))}, body=body, distinct=True)]), ['T'])
     for op in ('ArgMin', 'ArgMax'):
@@ -335,6 +337,7 @@ def gen_aggh(full):
       dfn = Ann('%s(a) = %sK(a, %d);' % (opk, opk[:6], k))
       yield Case('AGGH', Program([dfn, R('T', x, Aggr(opk, arrow(y, y)), body=body, distinct=True)]), ['T'])
       yield Case('AGGH', Program([dfn, R('T', Aggr(opk, arrow(x, Bin('+', x, y))), body=body, distinct=True)]), ['T'], info='keyless')
+    yield Case('AGGH', Program([R('T', x, named={'k': y}, body=body, distinct=True)]), ['T'])
     yield Case('AGGH', Program([R('T', x, y, body=body, distinct=True)]), ['T'])                            # plain distinct
     yield Case('AGGH', Program([R('T', x, body=body, distinct=True)]), ['T'])
     yield Case('AGGH', Program([R('T', Bin('+', x, y), body=body, distinct=True)]), ['T'])
